@@ -42,6 +42,12 @@ EXPLANATION = ("Theorems (Props/C18.lean) hold for EVERY draw list, i.e. every b
                "admissible population tree every join of lineages from different populations is at least as old as their divergence "
                "(full statement, by mutual induction over the population tree); containedRU_no_early_join: the same whatever genes the "
                "random_uniform placement of constrained_kingman_tree draws. coalesce_fuel_suffices: loop fuel never exhausted. "
+               "No internal failure / progress: bd_only_script_errors, fbd_only_script_errors, pb_only_script_errors, "
+               "kingman_only_script_errors, contained_never_internal_error (a run can only stop on a too short or wrongly typed draw "
+               "script; state/fuel unreachable, via the lookup invariants SInv/FSInv), bd_iter_progress and finish_progress (six "
+               "well-kinded draws always complete a pass; two valid shuffles complete the run), bd_sinv_step. contained_leaves: the gene "
+               "tree's leaves are a permutation of the sampled genes. Well-formedness and (for GT) bifurcation are type-level facts of "
+               "the model, judged on the implementation by the oracle. "
                "Determinism (clause d) is definitional in the model (functions of arguments and draw list); its content is the tie: "
                "tripwires on GLOBAL_RNG / random.*, equal-state double runs with shaken memory layout, fresh-interpreter runs.")
 
@@ -68,6 +74,7 @@ class ScriptRng(object):
         self.ugrid = spec.get("ugrid", 1 << 20)
         self.wgrid = spec.get("wgrid", 8)
         self.special = spec.get("special", True)
+        self.gauss_signed = spec.get("gauss_signed", False)   # gauss() may also lower a rate (clause (d) cases only)
         self.picks = []
         self.arity = []
         self.log = []
@@ -110,7 +117,7 @@ class ScriptRng(object):
         return v
 
     def gauss(self, mu, sigma):
-        k = self.pick(3) if sigma else 0
+        k = ((self.pick(5) - 2) if self.gauss_signed else self.pick(3)) if sigma else 0
         v = mu + sigma * k
         self.log.append("g%d" % rate_int(v))
         return v
@@ -225,8 +232,6 @@ def o_taxa(tree, problems, expect_in_namespace=True):
     if len(set(id(l.taxon) for l in lv)) != len(lv):
         problems.append(("taxa", "%d leaves carry only %d distinct taxa (%s)" % (
             len(lv), len(set(id(l.taxon) for l in lv)), sorted(l.taxon.label for l in lv)[:12])))
-    elif len(set(l.taxon.label for l in lv)) != len(lv):
-        problems.append(("taxa", "leaf taxa share labels: %s" % sorted(l.taxon.label for l in lv)[:12]))
     if expect_in_namespace:
         members = set(id(t) for t in tree.taxon_namespace)
         if any(id(l.taxon) not in members for l in lv):
@@ -328,7 +333,9 @@ def run_sim(dendropy, case, rng):
         return birthdeath.fast_birth_death_tree(b, d, rng=rng, **kw), None
     if sim == "dbd":
         try:
-            return treesim.discrete_birth_death_tree(float(Fraction(p["b"])), float(Fraction(p["d"])), ntax=p["n"],
+            return treesim.discrete_birth_death_tree(float(Fraction(p["b"])), float(Fraction(p["d"])),
+                                                     birth_rate_sd=float(Fraction(p.get("bsd", "0"))),
+                                                     death_rate_sd=float(Fraction(p.get("dsd", "0"))), ntax=p["n"],
                                                      repeat_until_success=p["repeat"], rng=rng), None
         except dendropy.utility.error.TreeSimTotalExtinctionException:
             # documented outcome when repeat_until_success is False: a one-node stand-in keeps the two runs comparable
@@ -423,9 +430,30 @@ class GlobalWatch(object):
         self.g = du.GLOBAL_RNG
         self.s1 = self.g.getstate()
         self.s2 = random.getstate()
+        # any other source of randomness: a generator constructed during the call (random.Random(), SystemRandom())
+        # or system entropy read through the random module
+        self.made = 0
+        self.entropy = 0
+        me = self
+        self.orig_init = random.Random.__init__
+        self.orig_urandom = getattr(random, "_urandom", None)
+
+        def init(obj, *a, **k):
+            me.made += 1
+            return me.orig_init(obj, *a, **k)
+
+        def urandom(n):
+            me.entropy += 1
+            return me.orig_urandom(n)
+        random.Random.__init__ = init
+        if self.orig_urandom is not None:
+            random._urandom = urandom
         return self
 
     def __exit__(self, *a):
+        random.Random.__init__ = self.orig_init
+        if self.orig_urandom is not None:
+            random._urandom = self.orig_urandom
         return False
 
     def touched(self):
@@ -434,6 +462,10 @@ class GlobalWatch(object):
             t.append("dendropy.utility.GLOBAL_RNG")
         if random.getstate() != self.s2:
             t.append("module-level random.*")
+        if self.made:
+            t.append("a generator constructed during the call (random.Random / SystemRandom)")
+        if self.entropy:
+            t.append("system entropy (os.urandom via the random module)")
         return t
 
 
@@ -510,7 +542,18 @@ def model_line(case, log, tree, aux):
         return " ".join(["pb", str(p["ns"][1])] + log), model_text(tree, by_acc)
     if sim == "king":
         if not isinstance(p["pop"], int):
-            return None
+            # fractional population size pn/pd: tmrca = w * pn / pd.  The model multiplies by a natural number, so the
+            # waiting times travel pre-divided by pd (exactly, or the case is not comparable): (w / pd) * pn
+            f = Fraction(p["pop"])
+            log2 = []
+            for t in log:
+                if t.startswith("w"):
+                    w = Fraction(int(t[1:]), f.denominator)
+                    if w.denominator != 1:
+                        raise ValueError("waiting time not divisible by the population size's denominator")
+                    t = "w%d" % w.numerator
+                log2.append(t)
+            return " ".join(["king", str(p["ns"][1]), str(f.numerator)] + log2), model_text(tree, by_acc)
         return " ".join(["king", str(p["ns"][1]), str(p["pop"])] + log), model_text(tree, by_acc)
     if sim in ("cont", "ckt"):
         sp = p["sp"]
@@ -555,7 +598,7 @@ def one_case(ctx, dendropy, case, pending, compare=True):
         restarts = count_calls(dendropy.Node, "clear_child_nodes")
         try:
             with GlobalWatch() as gw:
-                with time_limit(30):
+                with time_limit(2 if case.get("d_only") else 30):
                     if sim == "rv":
                         res, aux = rv_call(dendropy, case, rng), None
                     else:
@@ -565,11 +608,24 @@ def one_case(ctx, dendropy, case, pending, compare=True):
             ctx.count("script_exhausted")
             return None
         except Timeout:
+            if case.get("d_only"):
+                ctx.count("d_only_timeouts")
+                return None
             ctx.fail("hang", "%s did not return within 30 s" % describe(case), case)
             return None
         except Exception as e:
+            if case.get("d_only"):
+                # evolving rates may leave the admissible domain (negative rates): whatever the code then does, it must do
+                # it reproducibly and with the supplied generator only
+                res, aux, touched = "EXC " + type(e).__name__, None, gw.touched()
+                runs.append((res, aux, rng, touched))
+                continue
             if case.get("expect_error"):
+                # inadmissible argument (empty namespace): the code refuses; the model must refuse too (`err arg`)
                 ctx.case([sim, case["params"], case["rng"]], False, kind=sim + "/inadmissible")
+                if rep == 0 and compare and case["rng"]["kind"] == "script":
+                    line = " ".join({"pb": ["pb", "0"], "king": ["king", "0", str(case["params"].get("pop", 1))]}[sim] + rng.log)
+                    pending.append((line, full_case(case, rng), None))
                 return None
             ctx.fail("exception", "%s raised %s: %s" % (describe(case), type(e).__name__, str(e)[:200]), full_case(case, rng))
             return None
@@ -586,7 +642,17 @@ def one_case(ctx, dendropy, case, pending, compare=True):
     problems = []
     # ---- clause (d): no stray generator, equal states -> identical results
     if touched or runs[1][3]:
-        problems.append(("global_rng/" + (case["params"]["fn"] if sim == "rv" else sim), "an explicit rng was supplied, yet %s changed state" % " and ".join(touched or runs[1][3])))
+        problems.append(("global_rng/" + (case["params"]["fn"] if sim == "rv" else sim), "an explicit rng was supplied, yet the call also used: %s" % " and ".join(touched or runs[1][3])))
+    if case.get("d_only"):
+        outs = [r[0] if isinstance(r[0], str) else canon(r[0], False) for r in runs]
+        if outs[0] != outs[1]:
+            problems.append(("nondeterministic", "two runs from equal generator states differ: %s vs %s" % (outs[0][:300], outs[1][:300])))
+        elif log is not None and log != runs[1][2].log:
+            problems.append(("nondeterministic", "two runs from equal generator states consumed different draws"))
+        ctx.case([sim, case["params"], case["rng"]], True, kind=sim + "/evolving-rates/" + case["rng"]["kind"])
+        for kind, what in problems:
+            ctx.fail(kind, "%s: %s" % (describe(case), what), rec)
+        return res
     if sim == "rv":
         if repr(runs[0][0]) != repr(runs[1][0]):
             problems.append(("nondeterministic", "two calls from equal generator states returned %r and %r" % (runs[0][0], runs[1][0])))
@@ -682,6 +748,10 @@ def flush(ctx, pending):
         if m is None:
             continue
         ctx.compared()
+        if want is None:
+            if m.strip() != "err arg":
+                ctx.disagree(line.split(" ", 1)[0] + "/refusal", {"line": line, "case": rec}, "raises (inadmissible argument)", m.strip())
+            continue
         if m.strip() != "ok " + want:
             ctx.disagree(line.split(" ", 1)[0], {"line": line if len(line) < 3000 else line[:3000] + "...", "case": rec}, want, m.strip())
     del pending[:]
@@ -743,6 +813,27 @@ def gen_bd(rng, max_n, sim="bd"):
         p["bsd"] = rng.choice(["1/8", "1/4", "0"])
         p["dsd"] = rng.choice(["1/8", "0"])
     return {"sim": sim, "params": p, "rng": spec}
+
+
+def gen_evolving(rng):
+    """rates that evolve along the tree with an sd comparable to / larger than the rate, zero rates included: outside the
+    statement's quantifier for clauses (a)-(c) (rates may turn negative), but every such run must still be a function of
+    its arguments and the supplied generator's state (clause d)"""
+    b = Fraction(rng.choice(RATES))
+    d = b * rng.choice([Fraction(0), Fraction(0), Fraction(1, 16), Fraction(1, 4), Fraction(1, 2)])
+    bsd = b * rng.choice([Fraction(0), Fraction(0), Fraction(1, 4), Fraction(1, 2), Fraction(1)])
+    dsd = (d if d else Fraction(1, 4)) * rng.choice([Fraction(1, 2), Fraction(1), Fraction(2), Fraction(4)])
+    if rng.random() < 0.25:
+        p = {"b": str(min(b, Fraction(1, 2))), "d": str(min(d, Fraction(1, 4))), "bsd": str(min(bsd, Fraction(1, 2))), "dsd": str(dsd),
+             "n": rng.randint(2, 10), "repeat": rng.random() < 0.5}
+        return {"sim": "dbd", "params": p, "rng": {"kind": "real", "seed": rng.getrandbits(32)}, "d_only": True}
+    p = {"b": str(b), "d": str(d), "bsd": str(bsd), "dsd": str(dsd), "n": rng.randint(2, 9), "ns": gen_ns(rng, 4),
+         "via": rng.choice(["treesim", "birthdeath"])}
+    if rng.random() < 0.7:
+        spec = {"kind": "real", "seed": rng.getrandbits(32)}
+    else:
+        spec = gen_script(rng, gauss_signed=True, limit=4000)
+    return {"sim": "bd", "params": p, "rng": spec, "d_only": True}
 
 
 def gen_pb(rng, max_n):
@@ -956,8 +1047,14 @@ def run(ctx):
                     "rng": {"kind": "real", "seed": rng.getrandbits(32)}}
         else:
             case = gen_rv(rng)
+        if rng.random() < 0.10:
+            case = gen_evolving(rng)
+        if rng.random() < 0.004:
+            # the refusal stream: an empty namespace
+            sim0 = rng.choice(["pb", "king"])
+            case = {"sim": sim0, "params": {"ns": ["sp", 0], "b": "1", "pop": 1}, "rng": gen_script(rng), "expect_error": True}
         one_case(ctx, dendropy, case, pending)
-        if case["sim"] != "rv" and len(fresh) < ctx.pick(6, 60) and rng.random() < 0.2:
+        if case["sim"] != "rv" and len(fresh) < ctx.pick(16, 60) and rng.random() < 0.2:
             fresh.append(case)
         if len(pending) >= 300:
             flush(ctx, pending)
